@@ -222,13 +222,13 @@ class Session:
             if not required:
                 return self._register(sp, st or {'vars': {}}, False)
             raise I.SubprojectConfigureError('configure failed')
+        if any(self._ident(name) in self.build.dependency_overrides[self.HOST] for name in st['overrides']):
+            # meson.override_dependency on a resolved name is an InterpreterException inside the subproject;
+            # a failed subproject's Build copy is not merged, so none of its overrides survive
+            if not required:
+                return self._register(sp, st, False)
+            raise I.InterpreterException('Tried to override dependency which has already been resolved or overridden')
         for name, dep in st['overrides'].items():
-            ident = self._ident(name)
-            if ident in self.build.dependency_overrides[self.HOST]:
-                # meson.override_dependency on a resolved name is an InterpreterException inside the subproject
-                if not required:
-                    return self._register(sp, st, False)
-                raise I.InterpreterException('Tried to override dependency which has already been resolved or overridden')
             self._set_override(name, self.mk(dep), True)
         return self._register(sp, st, True)
 
@@ -237,8 +237,7 @@ class Session:
         self.effects.append('system:' + name)
         v = self.world['system'].get(name)
         wanted = kwargs.get('version', [])
-        from mesonbuild.mesonlib import version_compare_many
-        if v is not None and (not wanted or version_compare_many(v, wanted)[0]):
+        if v is not None and vsat(v, wanted):
             return self.mk(['sys:' + name + '@' + v, True, v])
         if kwargs.get('required', True):
             raise I.DependencyException(f'Dependency "{name}" not found')
@@ -347,7 +346,7 @@ class Policy:
             forced = forced or sp in w['fff']
         elif allow is not False:
             for n in names:
-                p = w['provides'].get(n.lower())
+                p = w['provides'].get(n)
                 if p:
                     forced = forced or p[0] in w['fff']
                     # allow_fallback permits: true, or unset with a required or forced lookup
@@ -399,11 +398,11 @@ class Policy:
             if not required:
                 w['subprojects'].setdefault(sp, {'state': 'no', 'configure': 'fail', 'overrides': {}, 'vars': {}})['state'] = 'disabled'
             return fail()
+        if any(n in w['overrides'] for n in st['overrides']):
+            if not required:
+                st['state'] = 'disabled'
+            return fail()
         for n, dep in st['overrides'].items():
-            if n in w['overrides']:
-                if not required:
-                    st['state'] = 'disabled'
-                return fail()
             w['overrides'][n] = [dep, True]
         st['state'] = 'found'
         return self.from_subproject(sp, var, names, wanted, fail)
@@ -481,3 +480,23 @@ def enc_req(r: dict) -> T.List[str]:
 def line_seq(w: dict, reqs: T.List[dict]) -> str:
     """one protocol line: lookups run in sequence from world w"""
     return 'seq ' + '|'.join(enc_world(w) + ['#'.join('&'.join(enc_req(r)) for r in reqs)])
+
+
+def canon_out(out: str) -> str:
+    if out.startswith('found:'):
+        return 'found:' + enc(out[6:])
+    return out
+
+
+def canon_effects(eff: T.List[str]) -> str:
+    return ','.join(e.split(':', 1)[0] + ':' + enc(e.split(':', 1)[1]) for e in eff)
+
+
+def canon_world_enc(w: dict) -> str:
+    """same canonical text as `Driver.DepPolicy.showWorld`"""
+    def sd(d):
+        return f'{enc(d[0])}:{int(bool(d[1]))}:{enc(d[2])}'
+    ov = sorted(f'{enc(n)}={sd(d[0])}:{int(bool(d[1]))}' for n, d in w['overrides'].items())
+    ca = sorted(f'{enc(n)}={sd(d)}' for n, d in w['cache'].items())
+    sp = sorted(f'{enc(n)}={s["state"]}' for n, s in w['subprojects'].items())
+    return ','.join(ov) + ';' + ','.join(ca) + ';' + ','.join(sp)
